@@ -86,9 +86,10 @@ def long_cases(rnd, quick):
     return out
 
 
-def klass(b):
-    ks = [s["k"] for s in b["steps"] if s["a"] == "Fault"]
-    inj = [s["w"] for s in b["steps"] if s["a"] == "Inject"]
+def klass(b, lines):
+    """Class of an execution for the violation signature: the faults that were *applied* (logged)."""
+    ks = [ln["k"] for ln in lines if ln["e"] == "Fault"]
+    inj = [ln["w"] for ln in lines if ln["e"] == "Inject"]
     c = "+".join(ks) if ks else "clean"
     if inj and not ks:
         c += "+inject(" + ",".join(inj) + ")"
@@ -197,8 +198,8 @@ def run(chk, replay=None):
     for case in sorted(by_case, key=lambda c: (len(cases.get(c, [])), int(c[1:]))):
         b = execs[int(case[1:]) - 1]
         for v in sorted(by_case[case], key=lambda v: v["prop"]):
-            sig = "C19:" + v["prop"] + ":" + klass(b)
-            if sig in reported:
+            sig = "C19:" + v["prop"] + ":" + klass(b, cases[case])
+            if sig in reported or len(reported) >= 6:
                 continue
             reported.add(sig)
             end = cases[case][-1].get("o", {})
